@@ -479,6 +479,45 @@ func c03(c *an.Ctx) {
 		o.Note("encoder kind=%s decoder kind=%s", encKind, decKind)
 	})
 
+	c.Check("R-SHAPE", "compressReorderIndices always returns a non-nil list (a nil slice is serialised as JSON null, which both decoders read as 'no reordering')", 1, func(o *an.O) {
+		fn := c.NeedFunc(dp, "compressReorderIndices")
+		for _, e := range an.Exits(fn, false) {
+			o.Site(e)
+			v := e.(*ssa.Return).Results[0]
+			seen := map[ssa.Value]bool{}
+			var nilable func(x ssa.Value) bool
+			nilable = func(x ssa.Value) bool {
+				if seen[x] {
+					return false
+				}
+				seen[x] = true
+				switch y := x.(type) {
+				case *ssa.Const:
+					return y.IsNil()
+				case *ssa.Phi:
+					for _, ed := range y.Edges {
+						if nilable(ed) {
+							return true
+						}
+					}
+				case *ssa.Call:
+					if b, ok := y.Call.Value.(*ssa.Builtin); ok && b.Name() == "append" {
+						return false // append of at least one element is non-nil
+					}
+					return true
+				case *ssa.Slice, *ssa.MakeSlice:
+					return false
+				default:
+					return true
+				}
+				return false
+			}
+			if nilable(v) {
+				o.FailAt(e, "compressReorderIndices can return a nil slice (when nothing is appended, e.g. a non-empty array becomes empty): the delta then carries \"$\": null, Go's merge rejects it and the JS client keeps every old element")
+			}
+		}
+	})
+
 	c.Check("R-PROV", "index provenance: old[j] with j from computeReorderIndices(old,new) tested != -1; mergeArray reads prev[index] under index != -1", 4, func(o *an.O) {
 		da := c.NeedFunc(dp, "diffArray")
 		oldP := da.Params[0]
